@@ -93,6 +93,10 @@ pub struct Cfg {
     /// C03: only the robustness oracles (no panic, call counts, well-formed output); the run
     /// continues after ParseError, StreamReadError and ConnectionClosed.
     pub robust_only: bool,
+    /// also explore reads after which the application neither pops requests nor writes output
+    /// (it does so after a later read): hand-over of descriptors and interim responses must
+    /// not depend on when the application looks
+    pub allow_defer: bool,
 }
 
 impl Cfg {
@@ -111,6 +115,7 @@ impl Cfg {
             offer_when_queued_le: 2,
             judge_errors: true,
             robust_only: false,
+            allow_defer: false,
         }
     }
     pub fn to_json(&self) -> Value {
@@ -122,7 +127,7 @@ impl Cfg {
             "empty_reads": self.empty_reads, "eof": self.eof,
             "continue_after_error": self.continue_after_error,
             "max_fds_per_read": self.max_fds_per_read, "max_pending_fds": self.max_pending_fds,
-            "offer_when_queued_le": self.offer_when_queued_le, "judge_errors": self.judge_errors, "robust_only": self.robust_only,
+            "offer_when_queued_le": self.offer_when_queued_le, "judge_errors": self.judge_errors, "robust_only": self.robust_only, "allow_defer": self.allow_defer,
         })
     }
     pub fn from_json(v: &Value) -> Cfg {
@@ -156,6 +161,7 @@ impl Cfg {
             offer_when_queued_le: v["offer_when_queued_le"].as_u64().unwrap() as usize,
             judge_errors: v["judge_errors"].as_bool().unwrap(),
             robust_only: v["robust_only"].as_bool().unwrap_or(false),
+            allow_defer: v["allow_defer"].as_bool().unwrap_or(false),
         }
     }
 }
@@ -326,6 +332,12 @@ pub struct ReadObs {
 /// Performs one `try_read` with the given stream answer, then pops all parsed requests and
 /// drains all pending output into an all-accepting sink.
 pub fn do_read(c: &mut Conn, ans: ReadAns) -> ReadObs {
+    do_read_opt(c, ans, true)
+}
+
+/// `settle == false`: only `try_read` is called; parsed requests stay in the connection's queue
+/// and pending output stays unwritten (the application pops / writes later).
+pub fn do_read_opt(c: &mut Conn, ans: ReadAns, settle: bool) -> ReadObs {
     let offered = match &ans {
         ReadAns::Data(b, _) => b.len(),
         _ => 0,
@@ -346,6 +358,20 @@ pub fn do_read(c: &mut Conn, ans: ReadAns) -> ReadObs {
     let taken = if consumed_answer { offered.min(space) } else { 0 };
     let mut delivered = vec![];
     let mut pop_panic = None;
+    if !settle {
+        return ReadObs {
+            result,
+            taken,
+            recv_calls,
+            other_stream_calls: other,
+            delivered,
+            pop_panic,
+            interim: vec![],
+            interim_garbage: None,
+            write_calls_per_try_write_max: 0,
+            drain_error: None,
+        };
+    }
     loop {
         match util::catch(|| c.conn.pop_parsed_request()) {
             Ok(Some(r)) => delivered.push(r),
@@ -494,6 +520,12 @@ pub struct Exec<'a> {
     pub pending_fds: Vec<RawFd>,
     pub delivered_files: Vec<std::fs::File>,
     pub delivered_count: usize,
+    /// expectations accumulated by deferred reads (requests completed but not popped yet,
+    /// their descriptor lists, interim responses due but not written yet)
+    pub acc_reqs: Vec<SpecRequest>,
+    pub acc_fd_lists: std::collections::VecDeque<Vec<RawFd>>,
+    pub acc_100: Vec<Version>,
+    pub defer_streak: usize,
 }
 
 impl<'a> Exec<'a> {
@@ -518,6 +550,10 @@ impl<'a> Exec<'a> {
             pending_fds: vec![],
             delivered_files: vec![],
             delivered_count: 0,
+            acc_reqs: vec![],
+            acc_fd_lists: Default::default(),
+            acc_100: vec![],
+            defer_streak: 0,
         };
         if let Some(s) = &cfg.stream {
             e.queue = s.clone();
@@ -567,7 +603,8 @@ impl<'a> Exec<'a> {
     fn empty(&mut self, e: u8) {
         let errno = if e == 0 { libc::EAGAIN } else { libc::EINTR };
         let before = self.c.conn.verif_digest();
-        let o = do_read(&mut self.c, ReadAns::Errno(errno));
+        let settled = self.acc_reqs.is_empty() && self.acc_100.is_empty() && self.acc_fd_lists.is_empty();
+        let o = do_read_opt(&mut self.c, ReadAns::Errno(errno), settled);
         let after = self.c.conn.verif_digest();
         if self.machine.partial_line_len() > 0 {
             self.facts |= 1 << 6;
@@ -612,7 +649,8 @@ impl<'a> Exec<'a> {
     fn eof(&mut self, f: u8) {
         let fds = self.make_fds(f);
         self.pending_fds.extend_from_slice(&fds);
-        let o = do_read(&mut self.c, ReadAns::Eof(fds));
+        let settled = self.acc_reqs.is_empty() && self.acc_100.is_empty() && self.acc_fd_lists.is_empty();
+        let o = do_read_opt(&mut self.c, ReadAns::Eof(fds), settled);
         self.facts |= 1 << 10;
         if f > 0 {
             self.facts |= 1 << 14;
@@ -646,11 +684,14 @@ impl<'a> Exec<'a> {
     }
 
     fn read(&mut self, k: usize, f: u8) {
+        let defer = f & 0x80 != 0;
+        let f = f & 0x7f;
+        self.defer_streak = if defer { self.defer_streak + 1 } else { 0 };
         let k = k.min(self.queue.len());
         let arrived = self.queue[..k].to_vec();
         let fds = self.make_fds(f);
         let carry_before = self.machine.partial_line_len();
-        let o = do_read(&mut self.c, ReadAns::Data(arrived.clone(), fds.clone()));
+        let o = do_read_opt(&mut self.c, ReadAns::Data(arrived.clone(), fds.clone()), !defer);
         let taken = o.taken;
         let bytes: Vec<u8> = self.queue.drain(..taken).collect();
         self.stream_pos += taken;
@@ -702,7 +743,7 @@ impl<'a> Exec<'a> {
         let got: Vec<SpecRequest> = o.delivered.iter().map(view_request).collect();
         if self.tracing {
             self.steps.push(json!({
-                "action": format!("Read(arrived={}, fds={})", k, f),
+                "action": format!("Read(arrived={}, fds={}{})", k, f, if defer { ", application does not pop/write yet" } else { "" }),
                 "bytes_taken": show(&bytes), "space_offered": space,
                 "try_read": rs,
                 "delivered": got.iter().map(show_req).collect::<Vec<_>>(),
@@ -753,16 +794,22 @@ impl<'a> Exec<'a> {
             return;
         }
         // descriptors (reference: pending list, handed in arrival order to the first request
-        // completed by this or a later read)
+        // completed by this or a later read) - recorded per completed request, compared when the
+        // application pops
         self.pending_fds.extend_from_slice(&fds);
         if self.cfg.max_fds_per_read > 0 {
+            let ncompleted = events.iter().filter(|e| matches!(e, Event::Request(_))).count();
+            for i in 0..ncompleted {
+                let want: Vec<RawFd> = if i == 0 { std::mem::take(&mut self.pending_fds) } else { vec![] };
+                self.acc_fd_lists.push_back(want);
+            }
             for (i, r) in o.delivered.iter().enumerate() {
                 let have: Vec<RawFd> = r.files.iter().map(|f| f.as_raw_fd()).collect();
-                let want: Vec<RawFd> = if i == 0 { std::mem::take(&mut self.pending_fds) } else { vec![] };
+                let want = self.acc_fd_lists.pop_front().unwrap_or_default();
                 if have != want {
                     return self.fail(
                         "fd-attribution",
-                        format!("request #{} completed by this read carries descriptors {:?}, expected {:?} (arrival order, first completed request)", i, have, want),
+                        format!("popped request #{} carries descriptors {:?}, expected {:?} (arrival order, to the first request completed by that read or a later one)", i, have, want),
                     );
                 }
             }
@@ -806,9 +853,26 @@ impl<'a> Exec<'a> {
             self.terminal = true;
             return;
         }
-        let want_reqs: Vec<&SpecRequest> = events.iter().filter_map(|e| if let Event::Request(r) = e { Some(r) } else { None }).collect();
         let want_err = events.iter().find_map(|e| if let Event::Error(c) = e { Some(*c) } else { None });
-        let want_100: Vec<Version> = events.iter().filter_map(|e| if let Event::Continue(v) = e { Some(*v) } else { None }).collect();
+        self.acc_reqs.extend(events.iter().filter_map(|e| if let Event::Request(r) = e { Some(r.clone()) } else { None }));
+        self.acc_100.extend(events.iter().filter_map(|e| if let Event::Continue(v) = e { Some(*v) } else { None }));
+        if defer {
+            // only the return value can be judged now; deliveries are compared at the next pop
+            match (&o.result, want_err) {
+                (Ok(Ok(())), None) => {}
+                (Ok(Err(ConnectionError::ParseError(e))), Some(c)) if class_matches(c, e) => {
+                    self.errored = true;
+                    self.terminal = true;
+                }
+                (_, Some(c)) => return self.fail("missing-error", format!("the stream is invalid at this point ({:?}) but try_read returned {} (stream offset {})", c, rs, self.stream_pos)),
+                (_, None) => return self.fail("spurious-error", format!("try_read returned {} although the consumed bytes are a valid prefix (stream offset {})", rs, self.stream_pos)),
+            }
+            self.obs_log.extend_from_slice(b"deferred;");
+            return;
+        }
+        let all_reqs: Vec<SpecRequest> = std::mem::take(&mut self.acc_reqs);
+        let want_reqs: Vec<&SpecRequest> = all_reqs.iter().collect();
+        let want_100: Vec<Version> = std::mem::take(&mut self.acc_100);
         if got.len() != want_reqs.len() || got.iter().zip(want_reqs.iter()).any(|(a, b)| a != *b) {
             return self.fail(
                 "delivery-mismatch",
@@ -912,7 +976,7 @@ impl<'a> Exec<'a> {
     pub fn key(&self) -> u128 {
         let d = self.c.conn.verif_digest();
         let t = self.twin.as_ref().map(|t| t.conn.verif_digest()).unwrap_or_default();
-        let flags = [self.terminal as u8, self.errored as u8, self.twin.is_some() as u8, self.pending_fds.len() as u8];
+        let flags = [self.terminal as u8, self.errored as u8, self.twin.is_some() as u8, self.pending_fds.len() as u8, self.acc_reqs.len() as u8, self.acc_100.len() as u8, self.acc_fd_lists.len() as u8, self.acc_fd_lists.iter().map(|l| l.len()).sum::<usize>() as u8, self.defer_streak as u8];
         let pos = if self.cfg.stream.is_some() { self.stream_pos as u64 } else { 0 };
         util::hash128(&[&d, &t, &self.machine.digest(), if self.cfg.stream.is_some() { &[] } else { &self.queue }, &flags, &pos.to_le_bytes()])
     }
@@ -964,6 +1028,11 @@ impl<'a> Exec<'a> {
         for k in 1..=kmax {
             for f in 0..=fmax {
                 v.push(Act::Read(k as u16, f));
+                // bounded: at most 3 reads in a row without the application looking, at most
+                // 2 requests / interim responses left waiting
+                if self.cfg.allow_defer && self.defer_streak < 3 && self.acc_reqs.len() < 2 && self.acc_100.len() < 2 {
+                    v.push(Act::Read(k as u16, f | 0x80));
+                }
             }
         }
         if self.cfg.empty_reads {
@@ -980,7 +1049,49 @@ impl<'a> Exec<'a> {
 
     /// End-of-run descriptor conservation check (C12): after dropping every delivered request and
     /// the connection, every descriptor handed over is closed exactly once and nothing else is.
+    /// The application finally pops and writes what deferred reads left behind.
+    fn final_settle(&mut self) {
+        if self.violation.is_some() || (self.acc_reqs.is_empty() && self.acc_100.is_empty() && self.acc_fd_lists.is_empty()) {
+            return;
+        }
+        let mut delivered = vec![];
+        while let Ok(Some(r)) = util::catch(|| self.c.conn.pop_parsed_request()) {
+            delivered.push(r);
+            if delivered.len() > 10_000 {
+                break;
+            }
+        }
+        let (interim, garbage, _, derr) = drain_output(&mut self.c);
+        let got: Vec<SpecRequest> = delivered.iter().map(view_request).collect();
+        let want = std::mem::take(&mut self.acc_reqs);
+        if got != want {
+            return self.fail("delivery-mismatch", format!("requests popped after deferred reads: [{}], the stream contains [{}]", got.iter().map(show_req).collect::<Vec<_>>().join(" | "), want.iter().map(show_req).collect::<Vec<_>>().join(" | ")));
+        }
+        if self.cfg.max_fds_per_read > 0 {
+            for (i, r) in delivered.iter().enumerate() {
+                let have: Vec<RawFd> = r.files.iter().map(|f| f.as_raw_fd()).collect();
+                let wantf = self.acc_fd_lists.pop_front().unwrap_or_default();
+                if have != wantf {
+                    return self.fail("fd-attribution", format!("request #{} popped after deferred reads carries descriptors {:?}, expected {:?} (they belong to the first request completed by the read they arrived with or a later one)", i, have, wantf));
+                }
+            }
+        }
+        if let Some(e) = derr.or(garbage) {
+            return self.fail("drain", e);
+        }
+        let got_100: Vec<(String, u16)> = interim.iter().map(|r| (r.version.clone(), r.code)).collect();
+        let want_100: Vec<(String, u16)> = std::mem::take(&mut self.acc_100).iter().map(|v| (if *v == Version::H10 { "HTTP/1.0".to_string() } else { "HTTP/1.1".to_string() }, 100u16)).collect();
+        if got_100 != want_100 {
+            return self.fail("interim-100", format!("interim responses written after deferred reads: {:?}, expected {:?} (one 100 Continue per qualifying header block, whenever the application gets round to writing)", got_100, want_100));
+        }
+        self.delivered_count += delivered.len();
+        for mut r in delivered {
+            self.delivered_files.append(&mut r.files);
+        }
+    }
+
     pub fn finish_fds(mut self) -> Option<(String, String)> {
+        self.final_settle();
         if self.pipes.is_empty() {
             return self.violation.take();
         }
